@@ -100,6 +100,7 @@ func (x *Exec) snapEq(a, b *snapNode, path Str, except []Str) *Term {
 		for _, ea := range xs {
 			p := join(ea.name)
 			found := st.False
+			anyName := st.False
 			for _, eb := range ys {
 				if len(ea.name.b) != len(eb.name.b) {
 					continue
@@ -115,16 +116,17 @@ func (x *Exec) snapEq(a, b *snapNode, path Str, except []Str) *Term {
 					sub = x.snapEq(ea.n, eb.n, p, except)
 				}
 				found = st.Or(found, st.And(ne, sub))
+				anyName = st.Or(anyName, ne)
 			}
-			if found.IsFalse() {
-				// entry missing on the other side: fine only if excepted (and, for directories, everything below it)
+			if !anyName.IsTrue() {
+				// entry (possibly) missing on the other side: fine only if excepted
 				var sub *Term
 				if flip {
 					sub = x.snapEq(nil, ea.n, p, except)
 				} else {
 					sub = x.snapEq(ea.n, nil, p, except)
 				}
-				found = sub
+				found = st.Or(found, st.And(st.Not(anyName), sub))
 			}
 			res = st.And(res, found)
 		}
@@ -185,6 +187,13 @@ func init() {
 	intrinsics[zz+"Done"] = func(x *Exec, a []Value) Value { x.c.reachedEnd = true; return nil }
 	intrinsics[zz+"MapOrderNondet"] = func(x *Exec, a []Value) Value { x.mapNondet = true; return nil }
 
+	intrinsics[zz+"Capture"] = func(x *Exec, a []Value) Value {
+		old := x.proc
+		x.proc = &Proc{}
+		defer func() { x.proc = old }()
+		x.callValue(a[0], nil)
+		return Str{x.proc.out}
+	}
 	intrinsics[zz+"Run"] = func(x *Exec, a []Value) Value {
 		var argv []Str
 		for _, e := range a[0].(Slice).a {
